@@ -121,8 +121,12 @@ def generate(bases, seed, tier):
         # binary fields x boundary class (re-sealed)
         for name, off, w, v in walk_sections(img, L, xml):
             vals = boundary(v, w, size)
+            # small lengths that pass alignment checks (4k - 1 for the "length minus one" fields) are always tried
+            must = [x for x in (3, 7, 11, 15, 19, 0, (1 << (8 * w)) - 1) if x != v and x < (1 << (8 * w))] if w == 2 else [0, (1 << (8 * w)) - 1]
             if tier == "quick":
-                vals = r.sample(vals, min(len(vals), 6))
+                vals = sorted(set(r.sample(vals, min(len(vals), 6)) + must))
+            else:
+                vals = sorted(set(vals + must))
             for nv in vals:
                 singles.append({"base": bi, "name": f"b{bi}:{name}={nv}", "edits": [{"k": "log", "off": off, "bytes": le(nv, w)}], "reseal": True})
         # XML fields and structure
